@@ -34,12 +34,14 @@ def diffWorld (m i : World) : List String :=
   let vm1 := e1.vammMaps.mergeSort (fun a b => a.1 ≤ b.1)
   let vm2 := e2.vammMaps.mergeSort (fun a b => a.1 ≤ b.1)
   let vkey {α : Type} [BEq α] (f : Vamm.V → α) : Bool := (m.vamms.map (fun p => (p.1, f p.2))) != (i.vamms.map (fun p => (p.1, f p.2)))
-  let balSort (l : List (Nat × Nat)) := (l.filter (fun p => p.2 != 0)).mergeSort (fun a b => a.1 ≤ b.1)
+  -- only accounts the observation lists are compared
+  let balSort (l : List (Nat × Nat)) := (l.filter (fun p => p.2 != 0 && (i.ledger.bal.any (fun q => q.1 == p.1)))).mergeSort (fun a b => a.1 ≤ b.1)
+  let allowSort (l : List (Nat × Nat)) := (l.filter (fun p => p.2 != 0 && (i.ledger.allow.any (fun q => q.1 == p.1)))).mergeSort (fun a b => a.1 ≤ b.1)
   (if e1.cfg != e2.cfg then ["ecfg"] else []) ++
   (if e1.st.oi != e2.st.oi then ["oi"] else []) ++
   (if e1.st.prepaid != e2.st.prepaid then ["prepaid"] else []) ++
   (if e1.st.pause != e2.st.pause then ["pause"] else []) ++
-  (if e1.pauser != e2.pauser || e1.whitelist != e2.whitelist then ["roles"] else []) ++
+  (if e1.pauser != e2.pauser || e1.whitelist.mergeSort (· ≤ ·) != e2.whitelist.mergeSort (· ≤ ·) then ["roles"] else []) ++
   (if p1.map posKey != p2.map posKey then ["possize"] else []) ++
   (if p1.map posMoney != p2.map posMoney then ["posmoney"] else []) ++
   (if p1.map posChk != p2.map posChk then ["poschk"] else []) ++
@@ -55,7 +57,7 @@ def diffWorld (m i : World) : List String :=
   (if m.feePool != i.feePool then ["feepool"] else []) ++
   (if m.feed != i.feed then ["feed"] else []) ++
   (if balSort m.ledger.bal != balSort i.ledger.bal then ["bal"] else []) ++
-  (if balSort m.ledger.allow != balSort i.ledger.allow then ["allow"] else [])
+  (if allowSort m.ledger.allow != allowSort i.ledger.allow then ["allow"] else [])
 
 /-- which properties' slices a differing component belongs to, given the transaction kind -/
 def slicesOf (kind : String) (tag : String) : List String :=
@@ -150,8 +152,16 @@ def handleWObs (acc : Acc) (h : WHist) (kv : KV) (line : String) : Acc × WHist 
         { pre := h.last.w, post := obs.w, env := env, sender := sender, funds := funds, tx := tx, ok := ok,
           xfers := parseXfers (tkv.str "xf"), residue := obs.tmp || obs.sent || obs.liq }
       -- 1. specification on the implementation's observations
+      -- C07 failures carry the class of the implementation's error (diagnostic, used by known-finding signatures)
+      let errClass : String :=
+        let e := tkv.str "err"
+        if e.startsWith "Overflow_Cannot_Sub" then "[arith-underflow]"
+        else if (e.splitOn "transfer_failure").length > 1 then "[transfer-failure]"
+        else if (e.splitOn "Querier").length > 1 then "[querier]"
+        else s!"[{(e.take 32).toString}]"
       let acc := (allChecks step).foldl (fun a pc =>
-        pc.2.foldl (fun a tag => a.report "SPECFAIL" pc.1 s!"{kind}:{tag}" tline) a) acc
+        pc.2.foldl (fun a tag =>
+          a.report "SPECFAIL" pc.1 (if pc.1 == "C07" then s!"{kind}:{tag}{errClass}" else s!"{kind}:{tag}") tline) a) acc
       -- C01 quote recovery across the history
       let acc := obs.w.vamms.foldl (fun a p =>
         if (h.seen.filter (fun e => e.1 == p.1)).all (fun e => Spec.C01.recoveryOk p.2.cfg.decimals e.2 p.2.st) then a
